@@ -12,6 +12,7 @@ iterations are covered by the correspondence run and the implementation-side re-
 import Lean
 import Rooc.Proofs.Format
 import Rooc.Proofs.LexFormat
+import Rooc.Proofs.Program
 namespace Rooc.Props.C11
 open Rooc Rooc.Syntax Rooc.Syntax.Doc Rooc.Syntax.Proofs
 
@@ -72,6 +73,42 @@ theorem parse_format_text (t : PExp) (h : WF t) (ht : TextOK t) : parseText (fmt
 theorem format_idem_text (t : PExp) (h : WF t) (ht : TextOK t) :
     ∃ t', parseText (fmtExp t).toList = .ok t' ∧ fmtExp t' = fmtExp t :=
   ⟨t, parse_format_text t h ht, rfl⟩
+
+/-! ### whole programs (fragment without iterations: objective, named / compared / asserted constraints, `where`
+constants, `define` declarations with no or two-sided bounds)
+
+`parseProgram` is the program-level parser model (`Rooc/Syntax/Program.lean`, diffed against `RoocParser::parse`
+on generated programs and their formatted texts), `progToks` the token-level twin of `PModel.text`
+(= `RoocParser::format`); the driver checks on every program of the fragment that lexing the printed text gives
+`progToks`. -/
+
+/-- **`parse (format program) = program`** for every program of the fragment -/
+theorem parse_format_program (m : PModel) (h : WFp m) : parseProgram (progToks m) = .ok m :=
+  parseProgram_fmt m h
+
+/-- the formatted program parses and is formatted as itself again -/
+theorem format_idem_program (m : PModel) (h : WFp m) :
+    ∃ m', parseProgram (progToks m) = .ok m' ∧ progToks m' = progToks m :=
+  ⟨m, parseProgram_fmt m h, rfl⟩
+
+/-- non-vacuity: `max x - (y - 2) s.t. c1: x <= 3  /  x and y  where let k = 2 define x, y as Real(0, k) / z as Boolean` -/
+example : WFp (PModel.mk .max (.bin .sub (.var "x") (.bin .sub (.var "y") (.int 2)))
+    [PConstraint.mk (some (.plain "c1")) (.var "x") .le (.int 3) false [] [],
+     PConstraint.mk none (.bin .and (.var "x") (.var "y")) .eq (.bool true) true [] []]
+    [("k", .int 2)]
+    [PDomain.mk [.plain "x", .plain "y"] (.real (some (.int 0)) (some (.var "k"))) [] [],
+     PDomain.mk [.plain "z"] .boolean [] []]) := by
+  refine ⟨?_, ?_, ?_, ?_, Or.inl (by simp)⟩
+  · simp [WF]; decide
+  · intro c hc
+    simp only [List.mem_cons, List.mem_nil_iff, or_false] at hc
+    rcases hc with rfl | rfl <;> simp [WFc, WF] <;> decide
+  · intro k hk
+    simp only [List.mem_cons, List.mem_nil_iff, or_false] at hk
+    subst hk; simp [WF]; decide
+  · intro d hd
+    simp only [List.mem_cons, List.mem_nil_iff, or_false] at hd
+    rcases hd with rfl | rfl <;> simp [WFd, WFt, WF, plainName] <;> decide
 
 /-! ### regression examples for the defects repaired in 6b01e1a / b4e2d1a / 8bf5921 -/
 
